@@ -5,6 +5,7 @@ U = "Union[int, bool, None, str]"
 UN = "Union[int, bool, None]"
 
 DOC = "{'a': {'b': u1, 'c': [u2, u3]}, 'l': [u1, {'b': u2}], 's': 'true', 'n': '3', 1: u3}"
+DOC_DEEP = "{'a': u1, 'deep': {'flag': 'true', 'ns': ['3', 'x', u2]}, 'l': [{'flag': 'False'}, u3]}"
 DOC2 = "{'a': {'b': u3, 'c': [u1]}, 'l': [{'b': u2}, 'x'], 's': 'x', 'n': 'x'}"
 
 # object builders: source of a function body returning the tuple of shared objects (last = the one operated on)
@@ -21,6 +22,8 @@ BUILD = {
     "rule.mol": "cond = Value.greater_than(t) | Value.is_instance(str)\nrule = Rule((MapOrListValue(), MapOrListValue()), cond)\nobjs = (cond, rule)",
     "rule.cast": "cond = Value.equal_to(True)\nrule = Rule(('s',), cond, cast={str: valida.casting.cast_string_to_bool})\nobjs = (cond, rule)",
     "rule.cast.fan": "cond = Value.is_instance(int, dict, list)\nrule = Rule((MapValue(),), cond, cast={str: int})\nobjs = (cond, rule)",
+    "rule.cast.deep": "cond = Value.equal_to(True)\nrule = Rule(('deep', 'flag'), cond, cast={str: valida.casting.cast_string_to_bool})\nobjs = (cond, rule)",
+    "rule.cast.deep.fan": "cond = Value.is_instance(int)\nrule = Rule(('deep', 'ns', ListValue()), cond, cast={str: int})\nobjs = (cond, rule)",
     "rule.patharg": "ref = DataPath('a', 'b')\ncond = Value.equal_to(ref)\nrule = Rule(('l', 0), cond)\nobjs = (ref, cond, rule)",
     "schema": "c1 = Value.greater_than(t)\nc2 = Value.is_instance(dict)\np1 = DataPath('a', 'c', ListValue())\nr1 = Rule(p1, c1)\nr2 = Rule(('a',), c2)\nr3 = Rule(('l', ListValue()), c1)\nsch = Schema([r1, r2, r3])\nobjs = (c1, c2, p1, r1, r2, r3, sch)",
     "schema.cast": "c1 = Value.equal_to(t)\nc2 = Value.equal_to(True)\nr1 = Rule(('n',), c1, cast={str: int})\nr2 = Rule(('s',), c2, cast={str: valida.casting.cast_string_to_bool})\nr3 = Rule((MapValue(),), Value.truthy() | Value.is_instance(bool))\nsch = Schema([r1, r2, r3])\nobjs = (c1, c2, r1, r2, r3, sch)",
@@ -38,6 +41,8 @@ OPS = {
     "rule.mol": ["objs[-1].test(doc)"],
     "rule.cast": ["objs[-1].test(doc)", "Schema([objs[-1]]).validate(doc)"],
     "rule.cast.fan": ["objs[-1].test(doc)"],
+    "rule.cast.deep": ["objs[-1].test(doc)", "Schema([objs[-1]]).validate(doc)", "objs[-1].test(Data(doc))"],
+    "rule.cast.deep.fan": ["objs[-1].test(doc)", "Schema([objs[-1]]).validate(doc)"],
     "rule.patharg": ["objs[-1].test(doc)"],
     "schema": ["objs[-1].validate(doc)", "objs[-1].validate(Data(doc))"],
     "schema.cast": ["objs[-1].validate(doc)"],
@@ -66,7 +71,7 @@ def step_case(bid, n, op, L):
     params = [("t", "int"), ("u1", lt), ("u2", "int"), ("u3", "int")]
     body = f"""
 {build}
-doc = {DOC}
+doc = {DOC_DEEP if 'deep' in bid else DOC}
 snap = idsnap(*objs)
 dsnap, dids = tx(doc), docids(doc)
 res = {op}
